@@ -224,14 +224,20 @@ VF_MAIN
     {
       IN_UINT(in_do_clear); IN_DBL(in_r2);
       if (in_do_clear & 1) {     /* clear re-allocates: failures may strike here too */
+        unsigned f0 = vf_failed_allocs + (unsigned)ae_n_create_failed;
         soxr_error_t e2 = soxr_clear(p);
+        if (vf_failed_allocs + (unsigned)ae_n_create_failed != f0)
+          VF_ASSERT(e2 != 0 && p->error == e2, "a failure inside soxr_clear is reported AND stays recorded in the object: later calls return it instead of running on a torn-down object (C20/C09)");
         if (p->error) VF_ASSERT(e2 == p->error, "soxr_clear returns the error it leaves pending (C20)");
         if (vf_failed_allocs == 0 && in_ae_create_err < 0 && p->io_ratio > 0) VF_ASSERT(e2 == 0, "soxr_clear of a configured resampler succeeds when nothing fails");
         if (e2) VF_ASSERT(p->resamplers == 0 && ae_n_live == 0, "a failed clear leaves no half-initialised engine (C20)");
         if (e2) VF_ASSERT(soxr_delay(p) == 0, "delay of a failed resampler is 0 (C15)");
       }
       if (in_do_clear & 2) {
+        unsigned f1 = vf_failed_allocs + (unsigned)ae_n_create_failed;
         soxr_error_t e3 = soxr_set_io_ratio(p, in_r2, 0);
+        if (vf_failed_allocs + (unsigned)ae_n_create_failed != f1)
+          VF_ASSERT(e3 != 0 && p->error == e3 && p->resamplers == 0, "a failure inside soxr_set_io_ratio (first initialisation) is reported and stays recorded (C20/C09)");
         if (p->error) VF_ASSERT(e3 == p->error, "set_io_ratio returns the pending error (C09)");
       }
     }
